@@ -43,8 +43,12 @@ def configs(tier, seed):
     cfgs = []
     Ds = list(range(2, 18)) + [32, 64] if tier == 'quick' else list(range(2, 41)) + [64, 127, 128, 255, 256, 512]
     for D in Ds:
+        # frame lengths the constructor can produce for this DFT size: L = D, and for a power of two (padding) also a
+        # shorter frame of the other parity
+        Ls = [D] + ([D - 1] if D >= 4 and D & (D - 1) == 0 else [])
         for real in (False, True):
-            cfgs.append(dict(kind='walk', name='walk D%d %s' % (D, 'real' if real else 'complex'), D=D, real=real))
+            for L in Ls:
+                cfgs.append(dict(kind='walk', name='walk D%d%s %s' % (D, '' if L == D else ' L%d' % L, 'real' if real else 'complex'), D=D, L=L, real=real))
     grid = [(4, 2), (5, 2), (5, 3), (6, 3), (4, 4), (5, 5), (7, 3)] if tier == 'quick' else \
         [(2, 1), (2, 2), (3, 2), (3, 3), (4, 1), (4, 2), (4, 3), (4, 4), (5, 2), (5, 3), (5, 5), (6, 3), (6, 4), (7, 2), (7, 3), (7, 7), (8, 3), (9, 4)]
     for (L, S), (style, kaldi) in itertools.product(grid, [('causal', False), ('centered', False), ('centered', True)]):
@@ -64,6 +68,7 @@ class Cfg:
 
 def run_walk(cfg):
     D, real = cfg['D'], cfg['real']
+    L = cfg.get('L', D)
     half_len = D // 2 + 1
 
     class FFT:
@@ -90,7 +95,7 @@ def run_walk(cfg):
             return s
 
         def _slen(s):
-            return 3
+            return L
 
     class Co:
         def __init__(s):
@@ -111,7 +116,7 @@ def run_walk(cfg):
             c.assume(start >= 0, start < D, tl >= 1, tl <= D)
         cls = ns['ShortTimeFourierTransformFrameComputer']
         o = cls.__new__(cls)
-        o._frame_length = 3
+        o._frame_length = L
         o._dft_size = D
         o._log = False
         o._power = True
@@ -138,7 +143,7 @@ def run_walk(cfg):
         if res is None:
             continue
         ob += 1
-        base = dict(kind='walk', D=D, real=real)
+        base = dict(kind='walk', D=D, L=L, real=real)
         if res[0] == 'exc':
             m = ctx.model()
             viol.append(dict(base, what='exception', detail=res[1], start=m.eval(z3.Int('start'), True).as_long(),
@@ -577,6 +582,7 @@ def replay(w):
     k = w['kind']
     if k == 'walk':
         D, real, start, tl = w['D'], w['real'], w['start'], w['tl']
+        L = w.get('L', D)
         rng = np.random.RandomState(5)
         taps = rng.rand(tl) + 0.5
         if real:
@@ -587,18 +593,18 @@ def replay(w):
         bank = _synthetic_bank(D, start, taps, real)
         worst = 0.0
         try:
-            c = STFTFrameComputer(bank, frame_length_ms=D + 0.5, frame_shift_ms=1.5, frame_style='causal',
-                                  pad_to_nearest_power_of_two=False, window_function='hamming', use_log=False, use_power=True)
-            if c._dft_size != D:
+            c = STFTFrameComputer(bank, frame_length_ms=L + 0.5, frame_shift_ms=1.5, frame_style='causal',
+                                  pad_to_nearest_power_of_two=(L != D), window_function='hamming', use_log=False, use_power=True)
+            if c._dft_size != D or c.frame_length != L:
                 return {'reproduced': False, 'detail': 'dft size %d != %d' % (c._dft_size, D)}
-            xs = rng.randn(D)
+            xs = rng.randn(L)
             got = c.compute_full(xs)
             want = brute_force(xs, c._window, D, start, taps, real, True)
         except Exception as e:
             return {'reproduced': True, 'detail': 'real computer raised %s: %s (D=%d start=%d len=%d)' % (type(e).__name__, e, D, start, tl)}
         worst = abs(got[0, 0] - want) / max(1e-12, abs(want))
-        return {'reproduced': worst > 1e-9, 'detail': 'D=%d %s start=%d len=%d: coefficient %.6g vs full-spectrum definition %.6g (rel diff %.3g)'
-                % (D, 'real' if real else 'complex', start, tl, got[0, 0], want, worst)}
+        return {'reproduced': worst > 1e-9, 'detail': 'D=%d (frame length %d) %s start=%d len=%d: coefficient %.6g vs full-spectrum definition %.6g (rel diff %.3g)'
+                % (D, L, 'real' if real else 'complex', start, tl, got[0, 0], want, worst)}
     if k == 'cover':
         L, S, style, kaldi, N = w['L'], w['S'], w['style'], w['kaldi'], w['N']
         xs = np.arange(1, N + 1, dtype=np.float64)
@@ -651,6 +657,7 @@ def replay(w):
 def _symbolic_pairs(D, real, start_v, tl_v):
     """run the symbolic walk harness with start/tl fixed; return the list of (bin, tap) pairs it records"""
     half_len = D // 2 + 1
+    L = D
 
     class FFT:
         @staticmethod
@@ -667,7 +674,7 @@ def _symbolic_pairs(D, real, start_v, tl_v):
             return s
 
         def _slen(s):
-            return 3
+            return L
 
     class Co:
         def __setitem__(s, k, v):
@@ -680,7 +687,7 @@ def _symbolic_pairs(D, real, start_v, tl_v):
     def body():
         cls = ns['ShortTimeFourierTransformFrameComputer']
         o = cls.__new__(cls)
-        o._frame_length = 3
+        o._frame_length = L
         o._dft_size = D
         o._log = False
         o._power = True
